@@ -309,6 +309,34 @@ ProductEdges(kind, Va, Ea, Vb, Eb) ==
                                          \/ (~Adj(Ea, p[1], q[1]) /\ ~Adj(Eb, p[2], q[2]))}
 ProductKinds == {"Cartesian", "Tensor", "Lexicographical", "Strong", "CoNormal", "Modular"}
 
+(* Products over ARCS (inputs and destinations of either kind).  The definitions above are statements about    *)
+(* ordered pairs: "u ~ v" is "<<u, v>> \in E", there is an arc from u to v.  An undirected input is a          *)
+(* symmetric E and its product is symmetric; for a directed input the same formula gives the arcs p -> q of    *)
+(* the product (gonum asks a.From(u) / a.Edge(u, v), which is this reading for both kinds of input).           *)
+(* What the destination holds afterwards - every function of graph/product calls dst.SetEdge(dst.NewEdge(p,    *)
+(* q)) for arcs p -> q of the product and nothing else:                                                         *)
+(*   a DIRECTED destination holds exactly the arcs of the product: an undirected edge of the product is a      *)
+(*     pair of arcs, both present (K2 modular K2 = 4 arcs);                                                     *)
+(*   an UNDIRECTED destination holds the edge {p, q} iff p -> q or q -> p is an arc of the product.             *)
+ProductArcs(kind, Va, Ea, Vb, Eb) == ProductEdges(kind, Va, Ea, Vb, Eb)
+PairLess(p, q) == p[1] < q[1] \/ (p[1] = q[1] /\ p[2] < q[2])
+DstHolds(dirDst, arcs) == IF dirDst THEN arcs ELSE {pq \in Sym(arcs) : PairLess(pq[1], pq[2])}   \* one representative per edge
+(* ModularExt (documented): "In addition to the modular product conditions, agree(u1v1, u2v2) must return true *)
+(* when (u1~v1 and u2~v2) for an edge to be added between (u1, u2) and (v1, v2) in dst.  If agree is nil,      *)
+(* Modular is called."  Agreement functions of the model: "true", "false", "nil" (no function) and "weq" =     *)
+(* the two arcs carry the same weight (Wa, Wb: functions on the arcs; symmetric for an undirected input).      *)
+AgreeKinds == {"true", "false", "weq", "nil"}
+ModularExtArcs(agree, Va, Ea, Wa, Vb, Eb, Wb) ==
+    LET N == Va \X Vb
+        Agree(p, q) == CASE agree \in {"true", "nil"} -> TRUE
+                         [] agree = "false" -> FALSE
+                         [] agree = "weq" -> Wa[<<p[1], q[1]>>] = Wb[<<p[2], q[2]>>]
+    IN {pq \in N \X N :
+          LET p == pq[1] q == pq[2] IN
+          /\ p[1] # q[1] /\ p[2] # q[2]
+          /\ IF Adj(Ea, p[1], q[1]) THEN Adj(Eb, p[2], q[2]) /\ Agree(p, q)
+                                    ELSE ~Adj(Eb, p[2], q[2])}
+
 (************************* deterministic generators *************************)
 \* ids: a sequence of distinct node ids; result: directed edge set (earlier -> later / centre -> leaf)
 \* Tree (n-ary tree built breadth-first over the listed nodes): the node at 0-based index j > 0 has its
